@@ -1,9 +1,11 @@
 CONSTANTS
   Dev = {}
   MaxLen = 6
+  Deep32 = FALSE
   MaxOct = 5
 SPECIFICATION Spec
 INVARIANT EmitDec
 INVARIANT EmitEnc
 INVARIANT EmitProbe
+INVARIANT EmitEncProbe
 CHECK_DEADLOCK FALSE
